@@ -1,6 +1,7 @@
 /* C14: feature scaling (src/dataset/stats.cpp).  C models, assumed contracts of the dependencies and the contracts of
  * the extracted functions.  Universal statements over columns / rows are stated at ghost indices (DESIGN 4.3):
- *   nv_gc  an arbitrary column (component of the statistics),   nv_gs  an arbitrary sample (row of the value matrix).
+ *   nv_gc  an arbitrary column (component of the statistics / feature),   nv_gs  an arbitrary sample (row of the value
+ *   matrix) resp. target component.  Arrays are "ghost-element" models: shape + the one coefficient at the ghost position.
  * Every global is nondeterministic at entry (goto-instrument --nondet-static), so the ghost indices are arbitrary. */
 #ifndef NV_C14_STATS_H
 #define NV_C14_STATS_H
@@ -16,7 +17,7 @@ struct nv_gvu { uint8_t g; int64_t n, k; };              /* tensor_mem_t<uint8_t
 struct nv_view { double* g; int64_t n, k; };             /* 1-D views: tensor1d_map_t, Eigen::Map<Vector>, Eigen::ArrayWrapper<Map<Vector>> */
 struct nv_t2d { double* g; int64_t rows, cols, kr, kc; };/* 2-D views: tensor2d_(c)map_t, Eigen::Map<Matrix>, ArrayWrapper of it */
 struct nv_pair_gvd { struct nv_gvd _0, _1; };            /* std::pair<tensor1d_t, tensor1d_t> */
-#define NV_MAXN 1000000
+#define NV_MAXN (1LL << 40)        /* symbolic extents: only keeps counters inside int64_t */
 #define NV_GV_OK(t, K) ((t).n >= 0 && (t).n <= NV_MAXN && (t).k == (K))
 struct nv_stats                                          /* nano::scalar_stats_t */
 {
@@ -65,7 +66,7 @@ static double nv_sqrt(double x)
   return r;
 }
 /* the only arithmetic fact used about the uninterpreted float operations: the IEEE difference of two finite numbers
- * a >= b is a non-negative number (possibly +inf), never NaN.  NV_FSUBM is NV_FSUB plus that fact. */
+ * a >= b is a non-negative number (possibly +inf), never NaN.  Extracted code calls nv_fsub_mono for every double `-`. */
 #define NV_USUB(a, b) __CPROVER_uninterpreted_fsub(a, b)      /* the raw uninterpreted difference: used in contracts */
 static double nv_fsub_mono(double a, double b)
 {
@@ -76,6 +77,17 @@ static double nv_fsub_mono(double a, double b)
 
 #undef NV_FSUB
 #define NV_FSUB(a, b) nv_fsub_mono(a, b)                          /* what extracted code calls for a double `-` */
+
+/* ============================================================================================== scalar_stats_t(dims)
+ * establishes the representation invariant and the accumulator invariant NV_ACC_INV of every column (count 0,
+ * min = DBL_MAX, max = -DBL_MAX), zero sums and neutral scaling */
+#define NV_CONTRACT_stats_ctor \
+__CPROVER_requires(__CPROVER_is_fresh(self, sizeof(*self)) && 0 <= dims && dims <= NV_MAXN) \
+__CPROVER_assigns(*self) \
+__CPROVER_ensures(NV_STATS_OK(self, nv_gc) && self->m_samples.n == dims) \
+__CPROVER_ensures(NV_COL(self, m_samples) == 0 && NV_COL(self, m_mean) == 0.0 && NV_COL(self, m_stdev) == 0.0) \
+__CPROVER_ensures(NV_ACC_INV(NV_COL(self, m_samples), NV_COL(self, m_min), NV_COL(self, m_max))) \
+__CPROVER_ensures(NV_COL(self, m_div_range) == 1.0 && NV_COL(self, m_mul_range) == 1.0 && NV_COL(self, m_div_stdev) == 1.0 && NV_COL(self, m_mul_stdev) == 1.0)
 
 /* ============================================================================================== ::update
  * "missing values ... without affecting the statistics": per column, the statistics are the fold of
@@ -257,6 +269,7 @@ static double nv_cw_matvec(struct nv_t2d A, struct nv_view v)
 /* make_full_tensor<scalar_t>(make_dims(n), value): every coefficient is `value`, so whichever coefficient k the model
  * chooses to track holds `value` (the spec passes the position at which the statistics are tracked) */
 static struct nv_gvd nv_gvd_full(int64_t n, double value, int64_t k) { struct nv_gvd t; t.g = value; t.n = n; t.k = k; return t; }
+static struct nv_gvi nv_gvi_full(int64_t n, int64_t value, int64_t k) { struct nv_gvi t; t.g = value; t.n = n; t.k = k; return t; }
 /* tensor copy assignment (vector storage: resizes, copies every coefficient) */
 static void nv_gvd_assign(struct nv_gvd* d, const struct nv_gvd* s) { *d = *s; }
 
